@@ -289,55 +289,172 @@ func Extract(src string) Emitted {
 }
 
 // TypeErrors type-checks src (a generated container file, or its skeleton)
-// against the packages the importer knows. Imports the importer does not know
-// are treated as the user's packages: they become empty fixture packages and
-// every complaint about them is dropped, as are complaints about placeholder
-// identifiers (skeleton holes), unused imports (pruned later by goimports) and
-// current-package symbols named in allowUndefined.
-func TypeErrors(src string, imp types.Importer, allowUndefined func(name string) bool) []string {
+// against the packages the importer knows (the pinned runtime and the standard
+// library). What the configuration brings along is declared as a fixture
+// first: an import the importer does not know is a user package, and every
+// member of it the file names is declared in it - as a struct type where the
+// file uses it in a type position, as a value of type interface{} elsewhere;
+// an undefined identifier of the file's own package is declared the same way
+// if allow accepts it (a current-package symbol the configuration names, or a
+// skeleton hole). Then the file is checked in full; only complaints about
+// unused imports (pruned later by goimports) are dropped.
+func TypeErrors(src string, imp types.Importer, allow func(name string) bool) []string {
 	fset := token.NewFileSet()
 	f, err := parser.ParseFile(fset, "generated.go", src, parser.ParseComments)
 	if err != nil {
 		return []string{"parse: " + err.Error()}
 	}
-	var fakes []string
+	typePos := typePositions(f)
+	// local name -> fake package
+	fakes := map[string]*types.Package{}
+	byPath := map[string]*types.Package{}
 	wrapped := importerFunc(func(path string) (*types.Package, error) {
 		if imp != nil {
 			if p, err := imp.Import(path); err == nil && p != nil {
 				return p, nil
 			}
 		}
+		if p, ok := byPath[path]; ok {
+			return p, nil
+		}
 		name := path[strings.LastIndex(path, "/")+1:]
 		p := types.NewPackage(path, name)
-		p.MarkComplete()
-		fakes = append(fakes, name)
-		for _, im := range f.Imports {
-			if strings.Trim(im.Path.Value, `"`) == path && im.Name != nil {
-				fakes = append(fakes, im.Name.Name)
-			}
-		}
+		byPath[path] = p
 		return p, nil
 	})
+	// declare what the file names in user packages
+	for _, im := range f.Imports {
+		path := strings.Trim(im.Path.Value, `"`)
+		if imp != nil {
+			if p, err := imp.Import(path); err == nil && p != nil {
+				continue
+			}
+		}
+		local := path[strings.LastIndex(path, "/")+1:]
+		if im.Name != nil {
+			local = im.Name.Name
+		}
+		p, _ := wrapped.Import(path)
+		fakes[local] = p
+	}
+	any := types.NewInterfaceType(nil, nil)
+	declare := func(pkg *types.Package, name string, isType bool) {
+		if pkg.Scope().Lookup(name) != nil {
+			return
+		}
+		if isType {
+			tn := types.NewTypeName(token.NoPos, pkg, name, nil)
+			types.NewNamed(tn, types.NewStruct(nil, nil), nil)
+			pkg.Scope().Insert(tn)
+		} else {
+			pkg.Scope().Insert(types.NewVar(token.NoPos, pkg, name, any))
+		}
+	}
+	ast.Inspect(f, func(n ast.Node) bool {
+		if se, ok := n.(*ast.SelectorExpr); ok {
+			if id, ok := se.X.(*ast.Ident); ok && id.Obj == nil {
+				if p, ok := fakes[id.Name]; ok {
+					declare(p, se.Sel.Name, typePos[se])
+				}
+			}
+		}
+		return true
+	})
+	for _, p := range fakes {
+		p.MarkComplete()
+	}
+	// undefined identifiers of the file's own package the caller accepts
+	var extra strings.Builder
+	extra.WriteString("package " + f.Name.Name + "\n")
+	seen := map[string]bool{}
+	for _, id := range f.Unresolved {
+		if seen[id.Name] || types.Universe.Lookup(id.Name) != nil || allow == nil || !allow(id.Name) {
+			continue
+		}
+		seen[id.Name] = true
+		if typePos[id] {
+			extra.WriteString("type " + id.Name + " struct{}\n")
+		} else {
+			extra.WriteString("var " + id.Name + " interface{}\n")
+		}
+	}
+	files := []*ast.File{f}
+	if len(seen) > 0 {
+		if ef, err := parser.ParseFile(fset, "fixtures.go", extra.String(), 0); err == nil {
+			files = append(files, ef)
+		}
+	}
 	var out []string
 	conf := types.Config{Importer: wrapped, Error: func(e error) {
 		msg := e.Error()
 		if te, ok := e.(types.Error); ok {
 			msg = te.Msg
 		}
-		if (strings.Contains(msg, "imported") && strings.Contains(msg, "not used")) || strings.Contains(msg, "VFH") || strings.Contains(msg, "VFQ") {
-			return
-		}
-		for _, fk := range fakes {
-			if strings.Contains(msg, fk+".") || strings.Contains(msg, "undefined: "+fk) {
-				return
-			}
-		}
-		if strings.HasPrefix(msg, "undefined: ") && allowUndefined != nil && allowUndefined(strings.TrimPrefix(msg, "undefined: ")) {
+		if strings.Contains(msg, "imported") && strings.Contains(msg, "not used") {
 			return
 		}
 		out = append(out, msg)
 	}}
-	_, _ = conf.Check(f.Name.Name, fset, []*ast.File{f}, nil)
+	_, _ = conf.Check(f.Name.Name, fset, files, nil)
+	return out
+}
+
+// typePositions: the identifiers and qualified identifiers the file uses where
+// the grammar wants a type.
+func typePositions(f *ast.File) map[ast.Expr]bool {
+	out := map[ast.Expr]bool{}
+	var mark func(e ast.Expr)
+	mark = func(e ast.Expr) {
+		switch x := e.(type) {
+		case *ast.Ident, *ast.SelectorExpr:
+			out[e] = true
+		case *ast.StarExpr:
+			mark(x.X)
+		case *ast.ParenExpr:
+			mark(x.X)
+		case *ast.ArrayType:
+			mark(x.Elt)
+		case *ast.MapType:
+			mark(x.Key)
+			mark(x.Value)
+		case *ast.ChanType:
+			mark(x.Value)
+		case *ast.Ellipsis:
+			if x.Elt != nil {
+				mark(x.Elt)
+			}
+		}
+	}
+	ast.Inspect(f, func(n ast.Node) bool {
+		switch x := n.(type) {
+		case *ast.Field:
+			mark(x.Type)
+		case *ast.CompositeLit:
+			if x.Type != nil {
+				mark(x.Type)
+			}
+		case *ast.ValueSpec:
+			if x.Type != nil {
+				mark(x.Type)
+			}
+		case *ast.TypeSpec:
+			mark(x.Type)
+		case *ast.TypeAssertExpr:
+			if x.Type != nil {
+				mark(x.Type)
+			}
+		case *ast.CallExpr:
+			if id, ok := x.Fun.(*ast.Ident); ok && (id.Name == "new" || id.Name == "make") && len(x.Args) > 0 {
+				mark(x.Args[0])
+			}
+			if pe, ok := x.Fun.(*ast.ParenExpr); ok {
+				if _, ok := pe.X.(*ast.StarExpr); ok {
+					mark(pe.X)
+				}
+			}
+		}
+		return true
+	})
 	return out
 }
 
